@@ -1,17 +1,24 @@
 """C03: see harness/protocheck.py (run_c03) and Properties/C03.v."""
 import json
 
-from . import protocheck
+from . import histcheck, protocheck
 
 LEVEL = "proof"
+PROFILES = [("REPAIR", 2), ("UNDO", 1), ("BASIC", 1)]
+ORACLES = ["failkeeps"]
 
 
 def run(ctx):
     protocheck.run_c03(ctx)
+    # commands that fail on their own (no injected fault), also on branches moved by plain git
+    histcheck.run_property(ctx, PROFILES, ORACLES, n_quick=32, n_thorough=500, nsteps=32 if ctx.quick() else 45,
+                           own_oracle="c03")
 
 
 def replay(ctx, path):
     doc = json.load(open(path))
+    if "scenario" in doc:
+        return histcheck.replay_scenario(ctx, path, ORACLES)
     print(json.dumps({k: doc.get(k) for k in ("why", "case", "setup", "cmd", "observer", "point", "nth", "schedule")}, indent=1))
     print("re-run the case with: ./check C03 (the corpus case above is part of every run)")
     return 1
